@@ -12,6 +12,7 @@ func init() {
 			"(C05-b) the IP partition receives 0.0.0.0/0 and only single ranges (Split() results), and is returned as the library computed it; " +
 			"(C05-c) the canonical 'All Connections' form is re-established by every growing ConnectionSet mutator and the representation is written only inside package common (rule C11-c); " +
 			"(C05-d) PortSet.Ports is the library's CanonicalSet and is assigned only from library constructors/operations. " +
+			"(C05-c-range) an interval built from runtime bounds (possibly empty: endPort below port) flows only into AddInterval / AddHole, which ignore an empty interval, never into ToSet(), which would yield a non-empty set of one empty interval. " +
 			"NOT decided: ports within 1..65535 (rule values are not validated anywhere; no static value ranges), uniqueness of peer strings for colliding names, the library's partition algorithm."
 		rules.GuardedRowConstruction(p, r, "C05-a")
 		rules.PairLoopShape(p, r, "C05-a-loop")
@@ -19,5 +20,6 @@ func init() {
 		rules.PartitionInputsAreRanges(p, r, "C05-b-ranges")
 		rules.CanonicalForm(p, r, "C05-c")
 		rules.IntervalCanonicity(p, r, "C05-d")
+		rules.IntervalsFromRuntimeBounds(p, r, "C05-c-range")
 	})
 }
